@@ -4,6 +4,7 @@ import (
 	"go/ast"
 	"go/token"
 	"go/types"
+	"golang.org/x/tools/go/packages"
 	"strings"
 
 	"verif/checker/internal/pathsim"
@@ -26,7 +27,7 @@ func (r *Run) usersOf(fn *types.Func, withIfaces bool) map[string][]callSite {
 
 func init() {
 	prop("C09",
-		"(a) a shared table's cleanup deletes the file only when the ownership query returned no error and answered 'exclusively owned'; (b) the file-deleting primitives (os.Remove, S3 DeleteObject, File.Delete, delete funcs, StorageLocation.Remove) are reachable only from the table cleanups, from Checkpoint.Destroy via CheckpointList.Save, and from the obsolete-snapshot removal; (c) WAL files of dropped checkpoints are destroyed only after the new checkpoints file was written and saved; (d) every checkpoint object records the table URIs it references, so NeedsTable answers truthfully for live checkpoints; (e) every table cleanup consults an ownership / retention predicate before deleting; (f) RetainOnly moves exactly the non-retained checkpoints to the pending-removal list, refuses to retain nothing, and IncludesTable consults every retained checkpoint; (j) every link that relays a neighbour's answer (DB.NeedsTable, Operator.HandleNeedsTable, the connect handler and client) says 'not needed' without an error only with the answer of the next link; plus C08.f (captured level lists are immutable) and C13.b.",
+		"(a) a shared table's cleanup deletes the file only when the ownership query returned no error and answered 'exclusively owned'; (b) the file-deleting primitives (os.Remove, S3 DeleteObject, File.Delete, delete funcs, StorageLocation.Remove) are reachable only from the table cleanups, from Checkpoint.Destroy via CheckpointList.Save, and from the obsolete-snapshot removal; (c) WAL files of dropped checkpoints are destroyed only after the new checkpoints file was written and saved; (d) every checkpoint object records the table URIs it references — the index is filled from every table of every level of the level list the checkpoint stores — so NeedsTable answers truthfully for live checkpoints; (e) every table cleanup consults an ownership / retention predicate before deleting; (f) RetainOnly moves exactly the non-retained checkpoints to the pending-removal list, refuses to retain nothing, and IncludesTable consults every retained checkpoint; (j) every link that relays a neighbour's answer (DB.NeedsTable, Operator.HandleNeedsTable, the connect handler and client) says 'not needed' without an error only with the answer of the next link; plus C08.f (captured level lists are immutable) and C13.b.",
 		"garbage-collection timing and RPC failure patterns themselves (the rules make the outcome independent of them); data races on CheckpointList (it has no lock of its own; noted in DESIGN.md, not armed).")
 
 	register(&Obligation{ID: "C09.a", Props: []string{"C09", "C06", "C01"}, Template: "guard",
@@ -232,6 +233,9 @@ func init() {
 									has = true
 								}
 							}
+						}
+						if has {
+							r.indexCoversAllLevels(pkg, cl, set, where)
 						}
 						if !has {
 							// accepted: the field is assigned right after on the same variable
@@ -1097,4 +1101,175 @@ func init() {
 				r.Fail(hn.Name()+":source", hn.Decl.Pos(), nil, "Operator.HandleNeedsTable no longer asks the DB")
 			}
 		}})
+}
+
+// indexCoversAllLevels: the table-URI index a Checkpoint literal is given was filled from every
+// table of every level of the level list the same literal stores: each element store into the
+// index map sits in a full loop over a level's tables (level.AllTables(), or the level's document
+// slice) inside a full loop over all levels (DescendLevels() / AscendLevels(0) without a skipped
+// level, or the document's level slice), with no guard or early exit in between, and is keyed by
+// the table's URI. Loops may be range or index loops; the index may be built by an extracted
+// helper.
+func (r *Run) indexCoversAllLevels(pkg *packages.Package, cl *ast.CompositeLit, set *types.Var, where string) {
+	info := pkg.TypesInfo
+	var setVal, levelsVal ast.Expr
+	for _, el := range cl.Elts {
+		kv, ok := el.(*ast.KeyValueExpr)
+		if !ok {
+			continue
+		}
+		id, ok := kv.Key.(*ast.Ident)
+		if !ok {
+			continue
+		}
+		if info.Uses[id] == types.Object(set) {
+			setVal = kv.Value
+		}
+		if id.Name == "Levels" {
+			levelsVal = kv.Value
+		}
+	}
+	sc := r.P.ScopeAt(cl.Pos())
+	if setVal == nil || levelsVal == nil || sc == nil || sc.Decl == nil {
+		return
+	}
+	// the map variable that is filled: the value itself, or the variable an extracted helper returns
+	m := prog.IdentObjPlain(info, setVal)
+	if call, isCall := ast.Unparen(deref(info, setVal)).(*ast.CallExpr); isCall {
+		if e := soleReturnExpr(info, call); e != nil {
+			m = prog.IdentObjPlain(info, e)
+		}
+	}
+	if m == nil {
+		r.Fail("Checkpoint-literal:"+where+":index-source", cl.Pos(), nil, "the table index of the checkpoint built in %s is not a map variable filled in that function next to its level list", where)
+		return
+	}
+	fail := func(pos token.Pos, why string) {
+		r.Fail("Checkpoint-literal:"+where+":index-partial", pos, nil, "the table index of the checkpoint built in %s does not cover every table of every level (%s): IncludesTable / NeedsTable answer 'not needed' for a table the checkpoint references, and a neighbour's cleanup deletes the file", where, why)
+	}
+	zeroArgs := func(call *ast.CallExpr) bool {
+		for _, a := range call.Args {
+			tv, ok := info.Types[a]
+			if !ok || tv.Value == nil || tv.Value.String() != "0" {
+				return false
+			}
+		}
+		return true
+	}
+	// the level list stored in the literal, and (document form) the level documents it is built from
+	levelsObj := prog.IdentObj(info, levelsVal)
+	docLevels := map[string]bool{}
+	ast.Inspect(deref(info, levelsVal), func(q ast.Node) bool {
+		if sel, isSel := q.(*ast.SelectorExpr); isSel && sel.Sel.Name == "Levels" {
+			docLevels[types.ExprString(sel)] = true
+		}
+		return true
+	})
+	skipped := token.NoPos
+	isLevels := func(e ast.Expr) bool {
+		e = ast.Unparen(e)
+		if call, isCall := e.(*ast.CallExpr); isCall {
+			if sel, isSel := ast.Unparen(call.Fun).(*ast.SelectorExpr); isSel && (sel.Sel.Name == "DescendLevels" || sel.Sel.Name == "AscendLevels") {
+				if o := prog.IdentObj(info, sel.X); o != nil && o == levelsObj {
+					if zeroArgs(call) {
+						return true
+					}
+					skipped = call.Pos()
+				}
+			}
+			return false
+		}
+		if sel, isSel := ast.Unparen(deref(info, e)).(*ast.SelectorExpr); isSel && docLevels[types.ExprString(sel)] {
+			return true
+		}
+		return false
+	}
+	nStores := 0
+	stores := map[*ast.AssignStmt]bool{}
+	inspect(sc.Decl.Body, func(nd ast.Node) bool {
+		if as, ok := nd.(*ast.AssignStmt); ok && len(as.Lhs) == 1 {
+			if ix, isIx := ast.Unparen(as.Lhs[0]).(*ast.IndexExpr); isIx && (prog.IdentObjPlain(info, ix.X) == m || prog.IdentObj(info, ix.X) == m) {
+				stores[as] = true
+			}
+		}
+		return true
+	})
+	covered := map[*ast.AssignStmt]bool{}
+	for _, outer := range fullLoopsOver(info, sc.Decl.Body, isLevels) {
+		outer := outer
+		isTables := func(e ast.Expr) bool {
+			e = ast.Unparen(e)
+			if call, isCall := e.(*ast.CallExpr); isCall {
+				sel, isSel := ast.Unparen(call.Fun).(*ast.SelectorExpr)
+				return isSel && sel.Sel.Name == "AllTables" && len(call.Args) == 0 && outer.IsElem(sel.X)
+			}
+			return outer.IsElem(e)
+		}
+		for _, inner := range fullLoopsOver(info, outer.Body, isTables) {
+			for as := range stores {
+				if as.Pos() < inner.Body.Pos() || as.End() > inner.Body.End() {
+					continue
+				}
+				nStores++
+				r.Site(as.Pos(), "table index store in "+where)
+				// nothing conditional or skipping between the outer loop and the store
+				bad := ""
+				ast.Inspect(outer.Body, func(q ast.Node) bool {
+					switch x := q.(type) {
+					case *ast.BranchStmt, *ast.ReturnStmt:
+						bad = "a level or table can be skipped (break / continue / return in the loops)"
+					case *ast.IfStmt:
+						if x.Pos() <= as.Pos() && as.End() <= x.End() {
+							bad = "the store is conditional"
+						}
+					case *ast.SwitchStmt:
+						if x.Pos() <= as.Pos() && as.End() <= x.End() {
+							bad = "the store is conditional"
+						}
+					case *ast.FuncLit:
+						return false
+					}
+					return true
+				})
+				if bad != "" {
+					fail(as.Pos(), bad)
+					covered[as] = true
+					continue
+				}
+				ix := ast.Unparen(as.Lhs[0]).(*ast.IndexExpr)
+				keyOK := false
+				switch k := ast.Unparen(deref(info, ix.Index)).(type) {
+				case *ast.CallExpr:
+					if sel, isSel := ast.Unparen(k.Fun).(*ast.SelectorExpr); isSel && sel.Sel.Name == "URI" && inner.IsElem(sel.X) {
+						keyOK = true
+					}
+				case *ast.SelectorExpr:
+					if k.Sel.Name == "URI" && inner.IsElem(k.X) {
+						keyOK = true
+					}
+				}
+				if !keyOK {
+					fail(as.Pos(), "the index is not keyed by the table's URI")
+				}
+				covered[as] = true
+			}
+		}
+	}
+	for as := range stores {
+		if !covered[as] {
+			nStores++
+			why := "a store into the index is not inside a loop over all levels and a loop over all tables of the level"
+			if skipped != token.NoPos {
+				why = "levels are skipped by the loop over the level list"
+			}
+			fail(as.Pos(), why)
+		}
+	}
+	if nStores == 0 {
+		why := "nothing is stored in it"
+		if skipped != token.NoPos {
+			why = "levels are skipped by the loop over the level list"
+		}
+		fail(cl.Pos(), why)
+	}
 }
